@@ -53,7 +53,7 @@ func init() {
 		Level:     "model_checking",
 		Technique: "stateless model checking of the real pipeline (controlled scheduler over instrumented code, fake Postgres, simulated node): every (start, stop) pair relative to the head x batch x concurrency x prior recorded position, all interleavings of task steps with head growth up to a preemption bound, every placement of a process restart; range oracle evaluated on every commit",
 		Rule: "jobs = head h in 1..5 (every block produces rows) x start in 0..h+2 x stop in {unset} u 1..h+2 x batch in 1..3 x conc in 1..2 x prior position in {none, inside the range (produced by really running the task on a shorter chain), at stop} x shape {L1 headers+logs, T1 blocks}; " +
-			"per job every schedule of {task thread, environment thread growing the chain to h+3} with <= 1 preemption, and a restart (tasks discarded, real loadTasks again) before any step (quick: at most one per execution; thorough: up to three). " +
+			"per job every schedule of {task thread, environment thread growing the chain to h+3} with <= 1 preemption, and a restart (tasks discarded, real loadTasks again) before any step (quick: at most one per execution; thorough: up to two, in any combination with two placed growth operations, total two). " +
 			"An execution is non-trivial when rows were written or a restart happened; distinct = distinct (job, choice sequence).",
 		Assumptions: []string{
 			"fake Postgres (h/simpg) interprets the SQL shovel sends; simulated node (h/simeth) answers like a well-behaved geth: a block beyond the head answers result null",
@@ -240,7 +240,7 @@ type c06Result struct {
 	counts   map[string]int64
 }
 
-func c06Exec(j c06Job, p *c06Prep, ch vrt.Chooser, states map[uint64]struct{}, trace bool) (res c06Result) {
+func c06Exec(j c06Job, p *c06Prep, ch vrt.Chooser, states *vrt.StateSet, trace bool) (res c06Result) {
 	w := world.New(ch, world.Cfg{Snap: p.snap, Chains: map[string]*simeth.Chain{"node1": p.init}})
 	w.V.States = states
 	w.V.TraceOn = trace
@@ -660,6 +660,9 @@ func c06Bounds(j c06Job, thorough bool) explore.Bounds {
 	}
 	if thorough {
 		b[0], b[vrt.KPreempt], b[vrt.KEnv] = 2, 2, 2
+		if j.H >= 5 {
+			b[vrt.KPreempt], b[vrt.KEnv] = 1, 1 // one placed growth and one restart
+		}
 	}
 	return b
 }
@@ -673,7 +676,7 @@ func c06Run(c *fw.Ctx) {
 	c.Bound("batch", "1..3")
 	c.Bound("concurrency", "1..2")
 	if c.Thorough() {
-		c.Bound("deviations", "placed growth operations <= 2, restarts <= 2, together <= 2")
+		c.Bound("deviations", "h <= 4: placed growth operations <= 2, restarts <= 2, together <= 2; h = 5: one placed growth and one restart")
 	} else {
 		c.Bound("deviations", "placed growth operations <= 1, restarts <= 1; both in one execution when h <= 2 or start unset, else one of them")
 	}
@@ -695,7 +698,7 @@ func c06Run(c *fw.Ctx) {
 			c.HarnessError("prepare %+v: %v", j, err)
 			return
 		}
-		states := map[uint64]struct{}{}
+		states := vrt.NewStateSet()
 		b := c06Bounds(j, c.Thorough())
 		st := explore.Explore(b, true, func(r *explore.Run) bool {
 			var chs vrt.Chooser = r
@@ -731,7 +734,7 @@ func c06Run(c *fw.Ctx) {
 			}
 			return !c.Expired()
 		})
-		c.Res.States += int64(len(states))
+		c.Res.States += int64(states.Len())
 		if dbg := os.Getenv("C06_DEBUG"); dbg != "" {
 			f, _ := os.OpenFile(dbg, os.O_APPEND|os.O_CREATE|os.O_WRONLY, 0o644)
 			fmt.Fprintf(f, "job %+v: executions=%d points=%d maxdepth=%d complete=%v\n", j, st.Executions, st.Points, st.MaxDepth, st.Complete)
